@@ -727,4 +727,36 @@ theorem structLit_horizontal_fits (h : Shape) (c : StructLitConfig) (items : Lis
 example : structLitTactic (some (Shape.legacy 18 (Indent.new 4 0))) ⟨.block, 4, 100, 18, true, .vertical⟩
     [ListItem.fromStr "a: 1".toList, ListItem.fromStr "b: 2".toList] = .horizontal := by decide
 
+/-! ## No line comment in front of code on the same line -/
+
+/-- **A horizontal list has no line comment.**  Whenever `definitive_tactic` answers Horizontal — also when
+the caller forced `ListTactic::Horizontal` — no comment of any item starts with `//` or ends with a line
+comment (`/* a */ // b`): in a one-line layout such a comment would swallow the tokens after it. -/
+theorem definitiveTactic_horizontal_no_line_comment (items : List ListItem) (tactic : ListTactic)
+    (sep : Separator) (width : Nat) (h : definitiveTactic items tactic sep width = .horizontal) :
+    ∀ it ∈ items, ∀ c, (it.preComment = some c ∨ it.postComment = some c) →
+      isOrEndsWithLineComment c = false := by
+  rw [definitiveTactic_spec] at h
+  obtain ⟨hs, _⟩ := h
+  intro it hit c hc
+  have := List.any_eq_false.mp hs it hit
+  simp only [ListItem.hasSingleLineComment, Bool.not_eq_true, Bool.or_eq_false_iff] at this
+  rcases hc with hc | hc
+  · simpa [hc, optAny] using this.1
+  · simpa [hc, optAny] using this.2
+
+example : definitiveTactic [⟨none, .none, some "a".toList, some "/* x */ // y".toList, false⟩]
+    .horizontal .comma 100 = .vertical := by decide
+
+/-- **A pre-comment kept on the item's line ends with a block comment.**  `extract_pre_comment` answers
+`SameLine` (the only style for which `write_list` may put the item behind the comment on one line) only
+for a snippet that ends with `*/`. -/
+theorem extractPreComment_sameLine_ends_block (pre : List Char) (c : Option (List Char))
+    (h : extractPreComment pre = some (c, .sameLine)) : endsWith "*/".toList (trim pre) = true := by
+  unfold extractPreComment at h
+  simp only at h
+  split at h
+  · rename_i he; exact he
+  · split at h <;> simp at h
+
 end RF.Props.Lists
